@@ -4,7 +4,7 @@
 # answer that the property theorems say must come out (property oracle on the real code).
 OPS = {
     "numenc": "corr", "numdec": "corr", "enc": "corr", "encinto": "corr", "dec": "corr",
-    "encspec": "oracle", "rtdec": "oracle", "rtenc": "oracle",
+    "encspec": "oracle", "rtdec": "oracle", "rtenc": "oracle", "numlaws": "oracle",
 }
 
 
@@ -30,8 +30,8 @@ PROPS = {
     },
     "C18": {
         "panic_is_violation": True,
-        "proved": "codec round trip for every i64/u64/f64 bit pattern (NaN -> canonical NaN, +/-inf preserved), shortest width, malformed shapes rejected (model), decoder never panics",
-        "missing": "order theorems (need the exact int/float comparison)",
+        "proved": "codec round trip for every i64/u64/f64 bit pattern (NaN -> canonical NaN, +/-inf preserved), shortest width, malformed shapes rejected, decoder never panics; the literal model of impl Ord for Number (incl. cmp_int_float and OrderedFloat) equals the order of exact values (NaN greatest, -0 = +0), hence reflexive/antisymmetric/transitive; int = uint iff same integer; int = float iff the float's exact value is that integer; as_i64/as_u64 exact or absent; as_f64 of a u64 is within half an ulp, exact below 2^53, monotone",
+        "missing": "as_f64 nearest-double statement is proved for unsigned integers and (isInt) signed ones; the half-ulp bound for negative integers follows by symmetry but is not stated separately",
         "assumptions": [],
     },
     "C10": {
